@@ -1,0 +1,100 @@
+//! C41: drivers for the LDAP / SCIM filter translation. The harness crate has no
+//! `ldap3_proto` dependency, so the LDAP filter structure is built here; the search is
+//! assembled exactly as `LdapServer::do_search` assembles a subtree search below the base dn
+//! (user filter AND NOT (schema classes / access control profiles)), then run through
+//! `SearchEvent::new_ext_impersonate_uuid` + `search_ext` for a caller-chosen identity.
+
+use crate::be::Limits;
+use crate::event::SearchEvent;
+use crate::idm::ldap::ldap_attr_filter_map;
+use crate::prelude::*;
+use crate::server::identity::{AccessScope, IdentUser, Source};
+use ldap3_proto::proto::{LdapFilter, LdapMatchingRuleAssertion, LdapSubstringFilter};
+use std::sync::Arc;
+
+#[derive(Debug, Clone)]
+pub enum HookLdapFilter {
+    And(Vec<HookLdapFilter>),
+    Or(Vec<HookLdapFilter>),
+    Not(Box<HookLdapFilter>),
+    Eq(String, String),
+    Pres(String),
+    Sub(String, Option<String>, Vec<String>, Option<String>),
+    Ge(String, String),
+    Le(String, String),
+    Approx(String, String),
+    Ext(String, String),
+}
+
+fn lf(f: &HookLdapFilter) -> LdapFilter {
+    match f {
+        HookLdapFilter::And(l) => LdapFilter::And(l.iter().map(lf).collect()),
+        HookLdapFilter::Or(l) => LdapFilter::Or(l.iter().map(lf).collect()),
+        HookLdapFilter::Not(g) => LdapFilter::Not(Box::new(lf(g))),
+        HookLdapFilter::Eq(a, v) => LdapFilter::Equality(a.clone(), v.clone()),
+        HookLdapFilter::Pres(a) => LdapFilter::Present(a.clone()),
+        HookLdapFilter::Sub(a, i, m, e) => LdapFilter::Substring(
+            a.clone(),
+            LdapSubstringFilter {
+                initial: i.clone(),
+                any: m.clone(),
+                final_: e.clone(),
+            },
+        ),
+        HookLdapFilter::Ge(a, v) => LdapFilter::GreaterOrEqual(a.clone(), v.clone()),
+        HookLdapFilter::Le(a, v) => LdapFilter::LessOrEqual(a.clone(), v.clone()),
+        HookLdapFilter::Approx(a, v) => LdapFilter::Approx(a.clone(), v.clone()),
+        HookLdapFilter::Ext(a, v) => LdapFilter::Extensible(LdapMatchingRuleAssertion {
+            matching_rule: None,
+            type_: Some(a.clone()),
+            match_value: v.clone(),
+            dn_attributes: false,
+        }),
+    }
+}
+
+/// A read-only user identity for `entry` whose only finite resource limit is the filter element
+/// budget (`search_ext` refuses internal identities, so the harness grants this account read
+/// access through an access control profile of its own).
+pub fn ident_limits(entry: Arc<EntrySealedCommitted>, filter_max_elements: usize) -> Identity {
+    Identity::new(
+        IdentType::User(IdentUser { entry }),
+        Source::Internal,
+        UUID_INTERNAL_SESSION_ID,
+        AccessScope::ReadOnly,
+        Limits {
+            unindexed_allow: true,
+            search_max_results: usize::MAX >> 1,
+            search_max_filter_test: usize::MAX >> 1,
+            filter_max_elements,
+        },
+        None,
+    )
+}
+
+/// The search `do_search` performs for scope Subtree at the base dn, for `ident`.
+pub fn ldap_search(
+    qs: &mut QueryServerReadTransaction,
+    ident: Identity,
+    filter: &HookLdapFilter,
+) -> Result<Vec<Uuid>, OperationError> {
+    let lfilter = LdapFilter::And(vec![
+        lf(filter),
+        LdapFilter::Not(Box::new(LdapFilter::Or(vec![
+            LdapFilter::Equality(Attribute::Class.to_string(), "classtype".to_string()),
+            LdapFilter::Equality(Attribute::Class.to_string(), "attributetype".to_string()),
+            LdapFilter::Equality(
+                Attribute::Class.to_string(),
+                "access_control_profile".to_string(),
+            ),
+        ]))),
+    ]);
+    let se = SearchEvent::new_ext_impersonate_uuid(qs, ident, &lfilter, None)?;
+    let res = qs.search_ext(&se)?;
+    Ok(res.iter().map(|e| e.get_uuid()).collect())
+}
+
+/// `ldap_attr_filter_map`, as the name of the kanidm attribute it selects.
+pub fn ldap_attr_map(input: &str) -> String {
+    ldap_attr_filter_map(input).to_string()
+}
